@@ -92,6 +92,12 @@ Meaning(o, l, r) ==
 
 Method(k) == CASE k = "name" -> "lookup" [] k = "python" -> "python" [] OTHER -> "literal"
 
+\* f[a..b] is an integer literal as written, possibly wrapped in parentheses
+RECURSIVE LiteralOperand(_, _, _)
+LiteralOperand(f, a, b) ==
+  IF a > b THEN FALSE
+  ELSE IF a = b THEN f[a].k = "value"
+  ELSE f[a].k = "open" /\ f[a].s = "(" /\ f[b].k = "close" /\ f[b].s = ")" /\ LiteralOperand(f, a + 1, b - 1)
 RECURSIVE ParseE(_, _, _, _)
 RECURSIVE ParseLoop(_, _, _, _, _)
 \* env == [dot : term list denoted by `.`, dotok : BOOLEAN]
@@ -121,6 +127,7 @@ ParseLoop(f, left, i, minp, env) ==
        IF t.k # "op" \/ t.s \notin Binary \/ Prec(t.s) < minp THEN R(left, i, "")
        ELSE LET b == ParseE(f, i + 1, IF RightAssoc(t.s) THEN Prec(t.s) ELSE Prec(t.s) + 1, env) IN
             IF b.err # "" THEN b
+            ELSE IF t.s \in {"**", "^"} /\ ~LiteralOperand(f, i + 1, b.i - 1) THEN R(<<>>, i, "operand-outside-domain")
             ELSE LET mv == Meaning(t.s, left, b.v) IN
                  IF ~mv.ok THEN R(<<>>, i, "operand-outside-domain")
                  ELSE ParseLoop(f, mv.v, b.i, minp, env)
